@@ -218,7 +218,7 @@ func c14units(tier string) []mc.Unit {
 		for _, tok := range tokens {
 			for place := 0; place < 4; place++ {
 				v := []string{tok, tok + " tail", "head " + tok, "head " + tok + " tail"}[place]
-				for col := 0; col < 4; col++ {
+				for col := 0; col < 5; col++ {
 					f := c14feat{seqid: "chr1", source: "src", typ: "gene", start: 2, end: 40, score: ".", strand: "+", phase: ".", attrs: map[string]string{"ID": "g1", "Note": "plain"}}
 					f2 := c14feat{seqid: "chr1", source: "src2", typ: "CDS", start: 41, end: 80, score: "0.5", strand: "-", phase: "0", attrs: map[string]string{"ID": "g2"}}
 					switch col {
@@ -234,6 +234,9 @@ func c14units(tier string) []mc.Unit {
 							v = "t" + strings.ReplaceAll(v, " ", "_")
 						}
 						f.typ = v
+					case 4: // inside the seqid (which has no blanks and, by the GFF3 rules, does not begin with '>' or '#')
+						v = "chr_" + strings.ReplaceAll(v, " ", "_")
+						f.seqid = v
 					case 3: // as (part of) an attribute key: keys are free text too, short of the delimiters
 						if strings.ContainsAny(v, "=;") {
 							continue
@@ -244,7 +247,7 @@ func c14units(tier string) []mc.Unit {
 					rec := c14rec{name: "chr1", rstart: 1, rend: n, seq: c14seq(n), feats: []c14feat{f, f2}}
 					for w := 0; w < 2; w++ {
 						var text []byte
-						cas := fmt.Sprintf("token %q as %s in %s, writer %s", tok, []string{"whole value", "prefix", "suffix", "infix"}[place], []string{"an attribute value", "the source column", "the type column", "an attribute key"}[col], []string{"Build", "independent"}[w])
+						cas := fmt.Sprintf("token %q as %s in %s, writer %s", tok, []string{"whole value", "prefix", "suffix", "infix"}[place], []string{"an attribute value", "the source column", "the type column", "an attribute key", "the seqid column"}[col], []string{"Build", "independent"}[w])
 						if w == 0 {
 							if p := catch(func() { text = gff.Build(c14poly(rec)) }); p != "" {
 								r.Failf("no-panic", cas, []string{"token"}, "text", "panic: "+p)
@@ -268,7 +271,7 @@ func c14units(tier string) []mc.Unit {
 		r.AddStates(cnt)
 		r.AddTransitions(cnt)
 		r.AddNontrivial(cnt)
-		r.Bound("format-tokens", fmt.Sprintf("%d tokens (the format's directives and sigils, punctuation, non-ASCII) x 4 placements x 4 places (attribute value, source, type, attribute key) x 2 writers", len(tokens)))
+		r.Bound("format-tokens", fmt.Sprintf("%d tokens (the format's directives and sigils, punctuation, non-ASCII) x 4 placements x 5 places (attribute value, source, type, attribute key, seqid) x 2 writers", len(tokens)))
 	}})
 	// region bounds that differ from the extent of the sequence, and features that repeat one another's ID, type and
 	// strand (exons of one transcript): bounds, full sequence and every feature line come back as written
